@@ -46,3 +46,25 @@ package php7
 //@ gram empty-slot-types ExprArrayItem : an empty array/list slot has no position
 //@ gram stmt-list-slots StmtCase.Stmts StmtDefault.Stmts : -1 stands for a boundary formed by an empty statement list
 //@ gram provisional-end alt_if_stmt_without_else : elseif branches are appended before alt_if_stmt closes the node and sets its final end
+
+// The two methods through which the LR driver talks to the scanner and to the caller (C01, C06).
+//@ func (*Parser).Lex
+//@   requires p != nil && lval != nil && lexwf(p.Lexer)
+//@   ensures p.currentToken != nil && lval.token == p.currentToken && result == p.currentToken.ID
+//@   props C01, C06
+
+// A syntax error is forwarded with the message the driver built and the position of the
+// look-ahead token (nil for the end token, which has no position of its own); the callback is
+// optional.
+//@ func (*Parser).Error
+//@   requires p != nil && (p.errHandlerFunc != nil ==> p.currentToken != nil)
+//@   ensures p.errHandlerFunc == nil ==> cbcount() == old(cbcount())
+//@   ensures p.errHandlerFunc != nil ==> (cbcount() == old(cbcount()) + 1 && fresh(cbarg()) && aserror(cbarg()).Msg == msg && aserror(cbarg()).Pos == p.currentToken.Position)
+//@   modifies nothing
+//@   props C01, C06
+
+//@ func lastNode
+//@   ensures len(nn) == 0 ==> result == nil
+//@   ensures len(nn) > 0 ==> result == nn[len(nn) - 1]
+//@   modifies nothing
+//@   props C01
